@@ -81,11 +81,15 @@ def handleWrapper (j : Json) : Except String String := do
   let sw ← jWalk (← j.getObjVal? "sw")
   let tw ← jWalk (← j.getObjVal? "tw")
   let hasM ← (← j.getObjVal? "matchings").getBool?
+  let hashed ← jNats (← j.getObjVal? "hashed")
+  let outside ← jNats (← j.getObjVal? "outside")
+  let hash0 : Nat → Bool := fun x => hashed.contains x
   let r := Wrapper.runDiff SqlglotModel.Generated.C20.wrapperPolicy sw tw (· + 1000000) (· + 2000000) hasM
-    (fun _ => true) (fun _ => false)
+    (fun _ => true) hash0
   let inputs := (Wrapper.objs sw ++ Wrapper.objs tw).eraseDups
-  let stale := (inputs.filter r.hashAfter).length
-  return s!"W copyS={b01 r.copied.1} copyT={b01 r.copied.2} consS={b01 (Wrapper.consistentB r.seenS)} consT={b01 (Wrapper.consistentB r.seenT)} stale={stale}"
+  let changedIn := (inputs.filter fun x => r.hashAfter x != hash0 x).length
+  let changedOut := (outside.eraseDups.filter fun x => r.hashAfter x != hash0 x).length
+  return s!"W copyS={b01 r.copied.1} copyT={b01 r.copied.2} consS={b01 (Wrapper.consistentB r.seenS)} consT={b01 (Wrapper.consistentB r.seenT)} changedIn={changedIn} changedOut={changedOut}"
 
 def handle (line : String) : Except String String := do
   let j ← Json.parse line
